@@ -61,6 +61,11 @@ def sym_int(name: str, lo: int, hi: int):
 
 
 def sym_bool(name: str):
+    if name in FIXED:
+        r = bool(FIXED[name])
+        with NoTracing():
+            _reg(name, r)
+        return r
     with NoTracing():
         return _reg(name, SymbolicBool(name + _uniq()))
 
